@@ -105,6 +105,6 @@ def run_txn_check(prop, families, tier, seed, replay, monitors=("TxnHistory",), 
                checker_cmd="tlc MC_Percolator ; go build harness/txn ; txnh -mode ... ; tlc " + " ; tlc ".join(monitors))
     cov.update(extra_cov or {})
     vlib.write_evidence(prop, tier, seed, "model_checking", cov, time.time() - t0, nviol + len(v.known_hits),
-                        assumptions=(assumptions or []) + ["store = the in-repo mock TiKV (2PC, optimistic and pessimistic); async commit / 1PC need the external unistore and are not driven",
+                        assumptions=(assumptions or []) + ["stores: the in-repo mock TiKV (two-phase commit, optimistic and pessimistic, virtual time) and, for the families whose name ends in 'uni', tidb's unistore (async commit and 1PC as well; wall-clock TSO, so locks only expire for GC-style forced resolution); unistore itself is trusted where it is faithful to TiKV - three places where it is not are excluded (DESIGN 10.4)",
                                                         "time is virtual: lock expiry is driven by the harness's TSO clock, back-off sleeps are skipped by the repository's failpoint"])
     return 1 if nviol else 0
